@@ -877,6 +877,25 @@ var blockModel = map[string]map[string][]string{
 		"list":       {"list-item", "list-header"},
 		"list-item":  {"p", "h", "list"},
 	},
+	// ECMA-376 part 1, 18.4.8 si / 18.3.1.53 is (CT_Rst), 18.4.4 r (CT_RElt); rPh (phonetic run) is not displayed text
+	"xlsx": {
+		"si": {"t", "r"},
+		"is": {"t", "r"},
+		"r":  {"t"},
+	},
+	// ECMA-376 part 1, 19.3.1.45 spTree / 19.3.1.22 grpSp (CT_GroupShape: sp, grpSp, graphicFrame, cxnSp, pic),
+	// 19.3.1.51 txBody, 21.1.2.2.6 a:p (r, br, fld), 21.1.3.13 a:tbl, 21.1.3.18 a:tr, 21.1.3.16 a:tc
+	"pptx": {
+		"spTree":      {"sp", "grpSp", "graphicFrame"},
+		"grpSp":       {"sp", "grpSp", "graphicFrame"},
+		"sp":          {"txBody"},
+		"txBody":      {"p"},
+		"p":           {"r", "br", "fld"},
+		"graphicData": {"tbl"},
+		"tbl":         {"tr"},
+		"tr":          {"tc"},
+		"tc":          {"txBody"},
+	},
 }
 
 func xmlTagName(tag string) string {
@@ -902,11 +921,30 @@ func xmlTagName(tag string) string {
 
 // R16.9 [C16]
 func ruleBlockContentModel(c *eng.Ctx) {
-	const R = "R16.9-BLOCK-CONTENT-MODEL"
-	c.Rule(R, "the decoders of the DOCX body, table, row and cell and of the ODT table, row, cell, list and list item know every block-level child of the content model that carries text, including the grouping wrappers (content controls, custom XML, header-row and row groups) that may stand wherever their content may: a child kind a decoder has no field or dispatch label for is dropped with all the text below it", 9, 0)
+	contentModelRule(c, "R16.9-BLOCK-CONTENT-MODEL", []string{"docx", "odt"}, 9, "the decoders of the DOCX body, table, row and cell and of the ODT table, row, cell, list and list item know every block-level child of the content model that carries text, including the grouping wrappers (content controls, custom XML, header-row and row groups) that may stand wherever their content may: a child kind a decoder has no field or dispatch label for is dropped with all the text below it")
+}
+
+// R17.6 [C17]
+func ruleStringContentModel(c *eng.Ctx) {
+	contentModelRule(c, "R17.6-STRING-CONTENT-MODEL", []string{"xlsx"}, 3,
+		"the decoders of a shared string item and of an inline string know both forms of SpreadsheetML string content (CT_Rst: a plain <t> or rich text runs <r><t>), and a run its <t>: a form without a field makes the cell come out empty")
+}
+
+// R18.7 [C18]
+func ruleShapeContentModel(c *eng.Ctx) {
+	contentModelRule(c, "R18.7-SHAPE-CONTENT-MODEL", []string{"pptx"}, 8,
+		"the decoders of a slide's shape tree and of a group shape know every text-carrying child of the PresentationML content model (shapes, nested groups, graphic frames), and the text body, paragraph, table, row and cell decoders know theirs: a child kind without a field is dropped, and its text appears on no page")
+}
+
+func contentModelRule(c *eng.Ctx, R string, pkgs []string, floor int, doc string) {
+	c.Rule(R, doc, floor, 0)
+	want := map[string]bool{}
+	for _, p := range pkgs {
+		want[p] = true
+	}
 	for _, pkg := range c.P.Pkgs {
 		model, ok := blockModel[pkg.Name]
-		if !ok || !strings.HasSuffix(pkg.PkgPath, "/"+pkg.Name) {
+		if !ok || !want[pkg.Name] || !strings.HasSuffix(pkg.PkgPath, "/"+pkg.Name) {
 			continue
 		}
 		scope := pkg.Types.Scope()
@@ -1009,7 +1047,7 @@ func ruleBlockContentModel(c *eng.Ctx) {
 				}
 			}
 			c.Check(len(missing) == 0, R, key, nt.Obj().Pos(), "decodes "+strings.Join(model[e], ", ")+" ("+how+")",
-				nt.Obj().Name()+" has no field or dispatch label for "+strings.Join(missing, ", ")+" children of <"+e+">: paragraphs and tables below them are dropped from every output")
+				nt.Obj().Name()+" has no field or dispatch label for "+strings.Join(missing, ", ")+" children of <"+e+">: the text below them is dropped from every output")
 		}
 	}
 }
